@@ -258,6 +258,13 @@ func (session *ClientCommandSession) runReadLoop() {
 				}
 				if isInterleaved {
 					session.observer.OnInterleavedPacket(packet, int(channel))
+				} else {
+					// readInterleaved has left the byte in the reader: it is the start of a rtsp message. Read and
+					// drop the message (as the loop below does), otherwise this loop would see the same byte forever.
+					if _, err := readResponseMessage(r); err != nil {
+						loopErr = err
+						return
+					}
 				}
 			}
 		}
